@@ -286,6 +286,12 @@ func (r *Reader) newBlockReader(nextOff uint64, wantTyp byte) (br *blockReader, 
 		return nil, nil
 	}
 
+	if blockTyp == blockTypeLog {
+		// The size in a log block's header is the inflated size. An
+		// incompressible block is larger than that on disk: zlib adds
+		// 6 bytes, and deflate 5 bytes per stored block of 64k.
+		blockSize += 6 + 5*(blockSize/65535+1)
+	}
 	if blockSize > guessBlockSize {
 		block, err = r.getBlock(nextOff, blockSize)
 		if err != nil {
